@@ -21,7 +21,17 @@ func init() {
 	vcore.Register(&vcore.Prop{ID: "C13", Level: "model_checking", Engine: "E2-state", Check: c13Check, Replay: c13Replay})
 }
 
-var c13Prefixes = []string{"foo", "foo/bar"}
+// "foo|bar" = the view of a view: Sub(Sub(r, "foo"), "bar"), which must behave like Sub(r, "foo/bar")
+var c13Prefixes = []string{"foo", "foo/bar", "foo|bar"}
+
+func c13Sub(backend ociregistry.Interface, p string) ociregistry.Interface {
+	for _, part := range strings.Split(p, "|") {
+		backend = ocifilter.Sub(backend, part)
+	}
+	return backend
+}
+
+func c13Eff(p string) string { return strings.ReplaceAll(p, "|", "/") }
 
 var c13Names = []string{"a", "a/b", "bar/c", "", ".", "..", "../other", "a/../../other", "../foo/a", "x/../a", "/a", "a/", "a//b", "A", "./a", "a/.", "../fooey/x", "../../other"}
 
@@ -63,6 +73,27 @@ func c13WantScope(prefix, text string) ociauth.Scope {
 	return ociauth.NewScope(out...)
 }
 
+// c13ScopeTextWrong reports whether the TEXT of the scope the backend saw (what ociauth would send to a
+// token server) names anything other than the prefixed repositories; computed on plain triples,
+// independently of ociauth.Scope's set operations.
+func c13ScopeTextWrong(prefix, text string, got ociauth.Scope) (string, bool) {
+	if text == "*unlimited*" || got.IsUnlimited() {
+		return "", false
+	}
+	want := map[[3]string]bool{}
+	for k := range scopeSet(text) {
+		if k[0] == ociauth.TypeRepository && k[1] != "" {
+			k[1] = prefix + "/" + k[1]
+		}
+		want[k] = true
+	}
+	gotText := got.String()
+	if !setEqual(scopeSet(gotText), want) {
+		return gotText, true
+	}
+	return "", false
+}
+
 type c13Case struct {
 	Prefix string `json:"prefix"`
 	Method string `json:"method"`
@@ -94,7 +125,7 @@ func nameClass(n string) string {
 func c13RunConfine(r *vcore.Run, c c13Case) {
 	backend := newRecBackend()
 	backend.Repos = []string{"foo", "foo/a", "foo/a/b", "foo/bar/c", "fooey/x", "other"}
-	sub := ocifilter.Sub(backend.Funcs(), c.Prefix)
+	sub := c13Sub(backend.Funcs(), c.Prefix)
 	ctx := context.Background()
 	if c.Scope != "" {
 		ctx = ociauth.ContextWithScope(ctx, c13Scope(c.Scope))
@@ -109,7 +140,7 @@ func c13RunConfine(r *vcore.Run, c c13Case) {
 		return
 	}
 	check := func(what, given, got string) {
-		want := c.Prefix + "/" + given
+		want := c13Eff(c.Prefix) + "/" + given
 		if got == want {
 			r.Outcome("mapped-exactly")
 			return
@@ -118,7 +149,7 @@ func c13RunConfine(r *vcore.Run, c c13Case) {
 			r.Outcome("backend-got-invalid-name")
 			return // cannot name any repository
 		}
-		under := strings.HasPrefix(got, c.Prefix+"/")
+		under := strings.HasPrefix(got, c13Eff(c.Prefix)+"/")
 		kind := "alias-inside-prefix"
 		if !under {
 			kind = "escapes-prefix"
@@ -134,9 +165,11 @@ func c13RunConfine(r *vcore.Run, c c13Case) {
 			check("from-repository", c.From, cl.FromRepo)
 		}
 		got := ociauth.ScopeFromContext(cl.ctx)
-		want := c13WantScope(c.Prefix, c.Scope)
+		want := c13WantScope(c13Eff(c.Prefix), c.Scope)
 		if !got.Equal(want) {
 			r.Violate("confine", fmt.Sprintf("%s/scope-not-rewritten/scope-%s", fp, c13ScopeClass(c.Scope)), c, want.Canonical().String(), got.Canonical().String())
+		} else if txt, bad := c13ScopeTextWrong(c13Eff(c.Prefix), c.Scope, got); bad {
+			r.Violate("confine", fmt.Sprintf("%s/scope-text-not-rewritten/scope-%s", fp, c13ScopeClass(c.Scope)), c, "String() of the rewritten scope names the prefixed repositories: "+want.Canonical().String(), txt)
 		}
 	}
 }
@@ -172,7 +205,7 @@ func c13RunList(r *vcore.Run, c c13ListCase) {
 	if c.ErrAfter >= 0 {
 		backend.ListErrAfter, backend.ListErr = c.ErrAfter, c12BackendErr
 	}
-	sub := ocifilter.Sub(backend.Funcs(), c.Prefix)
+	sub := c13Sub(backend.Funcs(), c.Prefix)
 	ctx := context.Background()
 	if c.Scope != "" {
 		ctx = ociauth.ContextWithScope(ctx, c13Scope(c.Scope))
@@ -187,7 +220,7 @@ func c13RunList(r *vcore.Run, c c13ListCase) {
 	// model: stripped names strictly after the start point
 	var all []string
 	for _, n := range c.Repos {
-		if s, ok := strings.CutPrefix(n, c.Prefix+"/"); ok {
+		if s, ok := strings.CutPrefix(n, c13Eff(c.Prefix)+"/"); ok {
 			all = append(all, s)
 		}
 	}
@@ -241,7 +274,7 @@ func c13RunList(r *vcore.Run, c c13ListCase) {
 			id := func(s string) string { return s }
 			twin := newRecBackend()
 			twin.Repos = c.Repos
-			direct := twin.Funcs().Repositories(ctx, c.Prefix+"/"+c.After)
+			direct := twin.Funcs().Repositories(ctx, c13Eff(c.Prefix)+"/"+c.After)
 			d1, _, _ := consumeSeq(direct, c.StopAfter, id)
 			d2, _, _ := consumeSeq(direct, c.StopAfter, id)
 			seq := sub.Repositories(ctx, c.After)
@@ -254,8 +287,10 @@ func c13RunList(r *vcore.Run, c c13ListCase) {
 	}
 	for _, cl := range backend.topCalls() {
 		got := ociauth.ScopeFromContext(cl.ctx)
-		if want := c13WantScope(c.Prefix, c.Scope); !got.Equal(want) {
+		if want := c13WantScope(c13Eff(c.Prefix), c.Scope); !got.Equal(want) {
 			r.Violate("list", fp+"/scope-not-rewritten/scope-"+c13ScopeClass(c.Scope), c, want.Canonical().String(), got.Canonical().String())
+		} else if txt, bad := c13ScopeTextWrong(c13Eff(c.Prefix), c.Scope, got); bad {
+			r.Violate("list", fp+"/scope-text-not-rewritten/scope-"+c13ScopeClass(c.Scope), c, "String() names the prefixed repositories: "+want.Canonical().String(), txt)
 		}
 	}
 	r.Outcome(fmt.Sprintf("list n=%d", len(want)))
